@@ -321,6 +321,18 @@ theorem ctFlip_lt {m i : Nat} (hm : m % 2 = 0) (hi : i < m) : ctFlip i < m := by
 theorem ctRot_lt {m i : Nat} (hm : m % 2 = 0) (hi : i < m) : ctRot m i < m := by
   unfold ctRot; split <;> split <;> omega
 
+theorem ct2_none {n m x : Nat} {c o : Nat → Nat} (hx : x ≤ n) (hc : ∀ j, j < m → c j ≠ x) (ho : ∀ j, j < m → o j ≠ x) :
+    pairedGet ((List.range m).map (fun i => (c i, n + 1 + i)) ++ (List.range m).map (fun i => (o i, n + m + 1 + i))) x = none := by
+  apply pairedGet_eq_none
+  intro p hp
+  rw [List.mem_append, mem_map_range, mem_map_range] at hp
+  rcases hp with ⟨j, hj, rfl⟩ | ⟨j, hj, rfl⟩
+  · exact ⟨hc j hj, by simp only; omega⟩
+  · exact ⟨ho j hj, by simp only; omega⟩
+
+theorem ctFlip_flip (k : Nat) : ctFlip (ctFlip k) = k := by
+  unfold ctFlip; split <;> split <;> omega
+
 /-- **`cut_tile`: the 2m new chambers satisfy the commutation relations.**  If `cut_tile`
     returns on a complete 3-dimensional D-set (chamber arguments), the result is complete with
     involutive operations, has 2m more chambers, keeps operations 0, 1, 3 of the old chambers, and
@@ -335,7 +347,8 @@ theorem cutTile_commutes {ds s : DSetData} (hv : ValidSet ds) (hdim : ds.dim = 3
       s.opU 3 (s.opU 0 c) = s.opU 0 (s.opU 3 c) ∧ s.opU 3 (s.opU 1 c) = s.opU 1 (s.opU 3 c)) ∧
     ((∀ k, k < cut.length → ds.opU 0 (cut.getD k 0) = cut.getD (ctFlip k) 0) →
      (∀ k, k < cut.length → ds.opU 2 (ds.opU 0 (cut.getD k 0)) = ds.opU 0 (ds.opU 2 (cut.getD k 0))) →
-     ∀ c, ds.size < c → c ≤ ds.size + 2 * cut.length → s.opU 2 (s.opU 0 c) = s.opU 0 (s.opU 2 c)) := by
+     ∀ c, ds.size < c → c ≤ ds.size + 2 * cut.length → s.opU 2 (s.opU 0 c) = s.opU 0 (s.opU 2 c)) ∧
+    ((∀ k, k < cut.length → ds.opU 0 (cut.getD k 0) = cut.getD (ctFlip k) 0) → FarCommute ds → FarCommute s) := by
   unfold cutTile at h
   simp only at h
   split at h
@@ -428,8 +441,9 @@ theorem cutTile_commutes {ds s : DSetData} (hv : ValidSet ds) (hdim : ds.dim = 3
     by_cases hA : c ≤ ds.size + cut.length
     · exact ⟨c - ds.size - 1, by omega, Or.inl (by omega)⟩
     · exact ⟨c - ds.size - cut.length - 1, by omega, Or.inr (by omega)⟩
-  refine ⟨f3.valid, s3, m3, B, ?_, ?_⟩
-  · intro c hc1 hc2
+  have h03 : ∀ c, ds.size < c → c ≤ ds.size + 2 * cut.length →
+      s.opU 3 (s.opU 0 c) = s.opU 0 (s.opU 3 c) ∧ s.opU 3 (s.opU 1 c) = s.opU 1 (s.opU 3 c) := by
+    intro c hc1 hc2
     obtain ⟨i, hi, rfl | rfl⟩ := hnew c hc1 hc2
     · have hf := ctFlip_lt hm hi
       have hr := ctRot_lt hm hi
@@ -441,7 +455,10 @@ theorem cutTile_commutes {ds s : DSetData} (hv : ValidSet ds) (hdim : ds.dim = 3
       refine ⟨?_, ?_⟩
       · rw [Z0 _ i (Or.inr rfl) hi, Z3B _ hf, Z3B i hi, Z0 0 i (Or.inl rfl) hi]
       · rw [Z1 _ i (Or.inr rfl) hi, Z3B _ hr, Z3B i hi, Z1 0 i (Or.inl rfl) hi]
-  · intro hadj hcomm c hc1 hc2
+  have h02 : (∀ k, k < cut.length → ds.opU 0 (cut.getD k 0) = cut.getD (ctFlip k) 0) →
+      (∀ k, k < cut.length → ds.opU 2 (ds.opU 0 (cut.getD k 0)) = ds.opU 0 (ds.opU 2 (cut.getD k 0))) →
+      ∀ c, ds.size < c → c ≤ ds.size + 2 * cut.length → s.opU 2 (s.opU 0 c) = s.opU 0 (s.opU 2 c) := by
+    intro hadj hcomm c hc1 hc2
     obtain ⟨i, hi, rfl | rfl⟩ := hnew c hc1 hc2
     · have hf := ctFlip_lt hm hi
       rw [Z0 0 i (Or.inl rfl) hi, Z2 0 _ (Or.inl rfl) hf, Z2 0 i (Or.inl rfl) hi, if_pos rfl, if_pos rfl,
@@ -451,5 +468,79 @@ theorem cutTile_commutes {ds s : DSetData} (hv : ValidSet ds) (hdim : ds.dim = 3
       rw [Z0 _ i (Or.inr rfl) hi, Z2 _ _ (Or.inr rfl) hf, Z2 _ i (Or.inr rfl) hi, if_neg hne, if_neg hne,
         B 0 _ (by omega) (by omega) (hoppr i hi).1 (hoppr i hi).2, hov i hi, hov _ hf,
         ← hcomm i hi, hadj i hi]
+  refine ⟨f3.valid, s3, m3, B, h03, h02, ?_⟩
+  intro hadj hfc
+  have hcomm : ∀ k, k < cut.length → ds.opU 2 (ds.opU 0 (cut.getD k 0)) = ds.opU 0 (ds.opU 2 (cut.getD k 0)) :=
+    fun k hk => hfc 0 2 _ (by omega) (by omega) (hcut k hk).1 (hcut k hk).2
+  have hne : ¬ cut.length = 0 := by omega
+  -- s2 on the old chambers
+  have Z2c : ∀ i, i < cut.length → s.opU 2 (cut.getD i 0) = ds.size + 0 + 1 + i := by
+    intro i hi
+    rw [f3.other 2 _ (by omega) (hcut i hi).1 (by have := (hcut i hi).2; omega) (by omega)]
+    have := (f2.paired _ _ (by omega) (by omega) (by omega)
+      (ct2_get (c := fun i => cut.getD i 0) (o := fun i => opp.getD i 0) (off := 0)
+        (fun j hj => (hcut j hj).2) (fun j hj => (hoppr j hj).2) hi (Or.inl rfl))).2
+    rwa [if_pos rfl] at this
+  have Z2o : ∀ i, i < cut.length → s.opU 2 (opp.getD i 0) = ds.size + cut.length + 1 + i := by
+    intro i hi
+    rw [f3.other 2 _ (by omega) (hoppr i hi).1 (by have := (hoppr i hi).2; omega) (by omega)]
+    have := (f2.paired _ _ (by omega) (by omega) (by omega)
+      (ct2_get (c := fun i => cut.getD i 0) (o := fun i => opp.getD i 0) (off := cut.length)
+        (fun j hj => (hcut j hj).2) (fun j hj => (hoppr j hj).2) hi (Or.inr rfl))).2
+    rwa [if_neg hne] at this
+  have U2 : ∀ x, 1 ≤ x → x ≤ ds.size → (∀ j, j < cut.length → cut.getD j 0 ≠ x) →
+      (∀ j, j < cut.length → opp.getD j 0 ≠ x) → s.opU 2 x = ds.opU 2 x := by
+    intro x hx1 hx2 hcx hox
+    rw [f3.other 2 x (by omega) hx1 (by omega) (by omega),
+      f2.unpaired x hx1 (by omega) (by omega)
+        (ct2_none (c := fun i => cut.getD i 0) (o := fun i => opp.getD i 0) hx2 hcx hox),
+      f1.other 2 x (by omega) hx1 (by omega) (by omega), f0.other 2 x (by omega) hx1 (by omega) (by omega)]
+    exact gold 2 x (by omega) hx1 hx2
+  have hoadj : ∀ i, i < cut.length → ds.opU 0 (opp.getD i 0) = opp.getD (ctFlip i) 0 := by
+    intro i hi
+    rw [hov i hi, hov _ (ctFlip_lt hm hi), ← hcomm i hi, hadj i hi]
+  intro a b v hab hb hv1 hv2
+  rw [m3] at hb
+  rw [s3] at hv2
+  by_cases hvn : ds.size < v
+  · obtain ⟨c03, c13⟩ := h03 v hvn hv2
+    have c02 := h02 hadj hcomm v hvn hv2
+    have : (a = 0 ∧ b = 2) ∨ (a = 0 ∧ b = 3) ∨ (a = 1 ∧ b = 3) := by omega
+    rcases this with ⟨rfl, rfl⟩ | ⟨rfl, rfl⟩ | ⟨rfl, rfl⟩
+    · exact c02
+    · exact c03
+    · exact c13
+  · have hvo : v ≤ ds.size := by omega
+    by_cases hb2 : b = 2
+    · have ha0 : a = 0 := by omega
+      subst hb2 ha0
+      have r0v := hv.range 0 v (by omega) hv1 hvo
+      rw [B 0 v (by omega) (by omega) hv1 hvo]
+      by_cases hc : ∃ i, i < cut.length ∧ cut.getD i 0 = v
+      · obtain ⟨i, hi, rfl⟩ := hc
+        have hf := ctFlip_lt hm hi
+        rw [hadj i hi, Z2c _ hf, Z2c i hi, Z0 0 i (Or.inl rfl) hi]
+      · by_cases ho : ∃ i, i < cut.length ∧ opp.getD i 0 = v
+        · obtain ⟨i, hi, rfl⟩ := ho
+          have hf := ctFlip_lt hm hi
+          rw [hoadj i hi, Z2o _ hf, Z2o i hi, Z0 _ i (Or.inr rfl) hi]
+        · have hcx : ∀ j, j < cut.length → cut.getD j 0 ≠ v := fun j hj h => hc ⟨j, hj, h⟩
+          have hox : ∀ j, j < cut.length → opp.getD j 0 ≠ v := fun j hj h => ho ⟨j, hj, h⟩
+          have hcx0 : ∀ j, j < cut.length → cut.getD j 0 ≠ ds.opU 0 v := by
+            intro j hj h
+            apply hcx (ctFlip j) (ctFlip_lt hm hj)
+            rw [← hadj j hj, h]; exact hv.invol 0 v (by omega) hv1 hvo
+          have hox0 : ∀ j, j < cut.length → opp.getD j 0 ≠ ds.opU 0 v := by
+            intro j hj h
+            apply hox (ctFlip j) (ctFlip_lt hm hj)
+            rw [← hoadj j hj, h]; exact hv.invol 0 v (by omega) hv1 hvo
+          have r2v := hv.range 2 v (by omega) hv1 hvo
+          rw [U2 _ r0v.1 r0v.2 hcx0 hox0, U2 v hv1 hvo hcx hox, B 0 _ (by omega) (by omega) r2v.1 r2v.2]
+          exact hfc 0 2 v (by omega) (by omega) hv1 hvo
+    · have ha2 : a ≠ 2 := by omega
+      have ra := hv.range a v (by omega) hv1 hvo
+      have rb := hv.range b v (by omega) hv1 hvo
+      rw [B a v (by omega) ha2 hv1 hvo, B b v hb hb2 hv1 hvo, B b _ hb hb2 ra.1 ra.2, B a _ (by omega) ha2 rb.1 rb.2]
+      exact hfc a b v hab (by omega) hv1 hvo
 
 end DSymVerif.Simp
